@@ -503,6 +503,13 @@ func (r *fatRun) do(op fatOp) map[string]any {
 			}
 			op.K = k
 			res = "full"
+		case "TruncDir":
+			// a truncating open aimed at a directory: whatever the answer, nothing changes
+			if f, e := fs.OpenFile(r.real(op.P, false), os.O_RDWR|os.O_TRUNC); e == nil {
+				f.Close()
+			} else {
+				err = e
+			}
 		case "Churn":
 			dir := ""
 			if op.P == "D" {
@@ -518,8 +525,23 @@ func (r *fatRun) do(op fatOp) map[string]any {
 				f.Close()
 				made = append(made, nm)
 			}
+			if op.Q == "trunc" && dir != "" {
+				// a truncating open aimed at the (now multi-cluster) directory itself: accepted or refused, it
+				// must not touch the directory - every entry made above is still there
+				if f, e := fs.OpenFile(strings.TrimSuffix(dir, "/"), os.O_RDWR|os.O_TRUNC); e == nil {
+					f.Close()
+				}
+				for _, nm := range made {
+					f, e := fs.OpenFile(nm, os.O_RDONLY)
+					if e != nil {
+						err = fmt.Errorf("after a truncating open of the directory, %s (one of %d entries) is gone: %v", nm, len(made), e)
+						break
+					}
+					f.Close()
+				}
+			}
 			for _, nm := range made {
-				if e := fs.Remove(nm); e != nil {
+				if e := fs.Remove(nm); e != nil && err == nil {
 					err = fmt.Errorf("cannot remove temporary %s: %v", nm, e)
 				}
 			}
@@ -622,6 +644,8 @@ func fatHeldScript() []fatOp {
 		{A: "Hold", P: "A"}, {A: "Create", P: "b"}, {A: "Append", P: "b", Len: 4, Tag: 4}, {A: "Append", P: "A", Len: 1, Tag: 5}, {A: "Append", P: "A", Len: 4, Tag: 6, Held: true},
 		{A: "Mkdir", P: "D"}, {A: "Create", P: "D/A"}, {A: "Hold", P: "D/A"}, {A: "Create", P: "D/b"}, {A: "Append", P: "D/b", Len: 5, Tag: 7}, {A: "Churn", P: "D", K: 20}, {A: "Append", P: "D/A", Len: 5, Tag: 9, Held: true},
 		{A: "Hold", P: "b"}, {A: "Remove", P: "A"}, {A: "Create", P: "L1"}, {A: "Rename", P: "L1", Q: "L2"}, {A: "WriteAt", P: "b", Off: 9, Len: 3, Tag: 8, Held: true}, {A: "Trunc", P: "b"},
+		// the directory grown to several clusters, then a truncating open aimed at the directory itself
+		{A: "Churn", P: "D", K: 300, Q: "trunc"},
 	}
 }
 
